@@ -430,6 +430,60 @@ func (g *Gen) AddImpliedClash(b *Bundle) {
 	b.Pkgs = append(b.Pkgs, a, c, user)
 }
 
+// AddFileImportClash: the shape of AddImpliedClash with ONE of the two packages imported by FILE PATH
+// (`import "acme/zzfshared/v1/shared.j5s.proto"`) and the other by package name (`import foo.zzfshared.v2`), both
+// declaring the same type name. A file import registers only the full package name of its directory, never the
+// short name: `zzfshared.Thing` is the type of the PACKAGE import whatever the order of the two statements; the
+// file-imported package is reached through its full name (`acme.zzfshared.v1.Thing`).
+func (g *Gen) AddFileImportClash(b *Bundle) {
+	for _, p := range b.Pkgs {
+		if strings.Contains(p.Name, "zzfshared") || strings.HasPrefix(p.Name, "zzfuser.") {
+			return
+		}
+	}
+	kind := pick(g, []string{KObject, KObject, KEnum, KOneof})
+	typeName := pick(g, []string{"Thing", "Kind", "Shared"})
+	mk := func(pkg string, n int) *Pkg {
+		e := &Elem{Kind: kind}
+		switch kind {
+		case KEnum:
+			e.Enum = &Enum{Name: typeName, Opts: []string{"ONE", "TWO", "THREE"}[:1+n]}
+		default:
+			e.Object = &Object{Name: typeName, Oneof: kind == KOneof}
+			for i := 0; i <= n; i++ {
+				f := &Field{Kind: FString}
+				if kind == KOneof {
+					f = &Field{Kind: FObject, Ref: &TRef{Kind: RInlObj}}
+				}
+				e.Object.Props = append(e.Object.Props, &Prop{Name: fmt.Sprintf("f%d", i), Field: f})
+			}
+		}
+		return &Pkg{Name: pkg, Files: []*File{{Path: strings.ReplaceAll(pkg, ".", "/") + "/shared.j5s", Elems: []*Elem{e}}}}
+	}
+	w := g.R.Perm(len(pkgWords))
+	byName := mk(fmt.Sprintf("%s.zzfshared.v%d", pkgWords[w[0]], 1+g.n(2)), 0)
+	byFile := mk(fmt.Sprintf("%s.zzfshared.v%d", pkgWords[w[1]], 1+g.n(2)), 1)
+	fk := map[string]string{KObject: FObject, KOneof: FOneof, KEnum: FEnum}[kind]
+	ref := &Field{Kind: fk, Ref: &TRef{Kind: RRef, Pkg: "zzfshared", Schema: typeName}}
+	switch g.n(3) {
+	case 0:
+		ref = &Field{Kind: FArray, Items: ref}
+	case 1:
+		ref = &Field{Kind: FMap, Items: ref}
+	}
+	imports := []Import{{Path: byName.Name}, {Path: byFile.Files[0].Path + ".proto"}}
+	if g.chance(1, 2) {
+		imports[0], imports[1] = imports[1], imports[0]
+	}
+	user := &Pkg{Name: "zzfuser.v1", Files: []*File{{Path: "zzfuser/v1/user.j5s",
+		Imports: imports,
+		Elems: []*Elem{{Kind: KObject, Object: &Object{Name: "FileImportHasNoShortName", Props: []*Prop{
+			{Name: "viaImplied", Field: ref},
+			{Name: "viaFileFull", Field: &Field{Kind: fk, Ref: &TRef{Kind: RRef, Pkg: byFile.Name, Schema: typeName}}},
+		}}}}}}}
+	b.Pkgs = append(b.Pkgs, byName, byFile, user)
+}
+
 var entityTaken = map[string]bool{}
 
 func (g *Gen) entityPrefixed(w string) bool {
